@@ -653,11 +653,13 @@ pub fn template_fix(ctx: &Ctx, rng: &mut Rng, o: &mut Out) {
           }
           // rule + transform + string fix (Fixer::with_transform, insert_transformation)
           if matches!(sp.lang, SupportLang::JavaScript | SupportLang::Python | SupportLang::Rust) {
-            let fixes = ["bar(\n  $B,\n    $U, $S)", "$U", "  $B\n$A", "[$$$L]\n      $B", "$B$Q$U", "$$$L|$L|$S"];
+            // (`1ST`: a transformation may be called anything; a digit-first name after the sigil is a
+            // variable exactly when a transformation of that name exists — `$100` stays literal text)
+            let fixes = ["bar(\n  $B,\n    $U, $S)", "$U", "  $B\n$A", "[$$$L]\n      $B", "$B$Q$U", "$$$L|$L|$S", "emit($1ST, $S, $100)", "$1ST$U"];
             for _ in 0..2 {
             let fix = *rng.pick(&fixes[..]);
             let yaml = format!(
-              "id: t\nlanguage: {}\nrule: {{any: [{{pattern: 'foo($A)'}}, {{pattern: 'zzz($Q)'}}]}}\ntransform:\n  B: {{replace: {{source: $A, replace: '[0-9a-z]', by: \"9\\n  8\"}}}}\n  U: {{convert: {{source: $A, toCase: upperCase}}}}\n  S: {{substring: {{source: $A, startChar: 1, endChar: -1}}}}\n  L: {{replace: {{source: $Q, replace: 'x', by: 'y'}}}}\nfix: {}\n",
+              "id: t\nlanguage: {}\nrule: {{any: [{{pattern: 'foo($A)'}}, {{pattern: 'zzz($Q)'}}]}}\ntransform:\n  B: {{replace: {{source: $A, replace: '[0-9a-z]', by: \"9\\n  8\"}}}}\n  U: {{convert: {{source: $A, toCase: upperCase}}}}\n  1ST: {{convert: {{source: $A, toCase: upperCase}}}}\n  S: {{substring: {{source: $A, startChar: 1, endChar: -1}}}}\n  L: {{replace: {{source: $Q, replace: 'x', by: 'y'}}}}\nfix: {}\n",
               sp.lang,
               serde_json::to_string(fix).unwrap()
             );
